@@ -149,7 +149,8 @@ def build(spec, objs, root=False):
     elif cls == 3:
         # "lp": the list was edited locally before the update, so that the generated idShorts of its children are
         # not aligned with their positions any more (1: first child inserted at the front afterwards,
-        # 2: built with a leading dummy that is deleted again, 3: first child popped and re-inserted at the front)
+        # 2: built with a leading dummy that is deleted again, 3: first child popped and re-inserted at the front,
+        # 4: [0] assigned positionally); the same edits are applied to lists of a copy that is built, not loaded
         lp = spec.get("lp", 0) if kids else 0
         lt = spec.get("lt", 0)       # 0: Property / xs:int, 1: Range / xs:int, 2: Range / xs:string
         lcls = model.Property if lt == 0 else model.Range
@@ -157,6 +158,9 @@ def build(spec, objs, root=False):
         dummy = (model.Property(None, lvt, 0, semantic_id=kids[0].semantic_id) if lt == 0
                  else model.Range(None, lvt, semantic_id=kids[0].semantic_id)) if lp == 2 else None
         first = kids[1:] if lp == 1 else ([dummy] + kids if lp == 2 else kids)
+        if lp == 4:      # built with a placeholder at [0] that is then replaced positionally: value[0] = x
+            first = [(model.Property(None, lvt, 0, semantic_id=kids[0].semantic_id) if lt == 0
+                      else model.Range(None, lvt, semantic_id=kids[0].semantic_id))] + kids[1:]
         o = model.SubmodelElementList(key, lcls, first, value_type_list_element=lvt,
                                       semantic_id_list_element=sem_ref(spec.get("ls")), description=cat, **common_kw)
         if lp == 1:
@@ -166,6 +170,8 @@ def build(spec, objs, root=False):
         elif lp == 3:
             x = o.value.pop(0)
             o.value.insert(0, x)
+        elif lp == 4:
+            o.value[0] = kids[0]
     elif cls == 4:
         slots = [[k for k, ks in zip(kids, spec["kids"]) if ks.get("slot", 0) == i] for i in range(3)]
         o = model.Operation(key, slots[0], slots[1], slots[2], description=cat, **common_kw)
@@ -573,7 +579,7 @@ class Gen:
             n["lt"], n["ls"] = r.choice([0, 0, 1, 2]), r.choice([None, None, 0, 1])
             n["kids"] = [self.list_kid(depth, n["lt"]) for _ in range(r.choice([0, 1, 2, 3]))]
             self.conform(n["kids"], n["lt"], n["ls"], r.choice([None, 0, 1]))
-            n["lp"] = r.choice([0, 1, 2, 3])        # local edits before the update (generated ids vs positions)
+            n["lp"] = r.choice([0, 1, 2, 3, 4])     # positional edits after construction (ids / dict order vs positions)
         return n
 
     def edit(self, n, depth=0):
@@ -613,7 +619,7 @@ class Gen:
             lt, ls = n.get("lt", 0), n.get("ls")
             m["lt"] = lt if r.random() < 0.7 else r.choice([t for t in (0, 1, 2) if t != lt])
             m["ls"] = ls if r.random() < 0.7 else r.choice([None, 0, 1])
-            m["lp"] = 0
+            m["lp"] = r.choice([0, 1, 2, 3, 4])     # the copy, too, may have been edited positionally (via == "ctor")
             if m["lt"] == lt or (lt != 0 and m["lt"] != 0):
                 kids = list(n["kids"])
                 r.shuffle(kids)
